@@ -141,9 +141,12 @@ class ElabPass:
             # Run the pass-specific `elaborate_module`
             result = self.elaborate_module(module)
 
-        except Exception as e:
+        except BaseException as e:
             # No longer pending - a later attempt is not a circular dependency - but remembered as failed.
             self.CLASS_LEVEL_CACHE.pending.discard(module)
+            if not isinstance(e, Exception):
+                # An interruption such as `KeyboardInterrupt`. Not to be raised again by later attempts.
+                e = RuntimeError(f"Elaboration of {module} was interrupted by {type(e).__name__}")
             self.CLASS_LEVEL_CACHE.failed[module] = e
             raise
 
